@@ -362,6 +362,12 @@ theorem curve_deriv (a : ℕ → ℕ → K) (k i : ℕ) : d⁄dX K (curve a k i)
 theorem curve_const (a : ℕ → ℕ → K) (k i : ℕ) : constantCoeff (curve a k i) = a k i := by
   simp [curve]
 
+theorem iterate_curve_deriv (a : ℕ → ℕ → K) (k i n : ℕ) :
+    (d⁄dX K)^[n] (curve a k i) = curve a (k + n) i := by
+  induction n generalizing k with
+  | zero => rfl
+  | succ n ih => rw [Function.iterate_succ_apply, curve_deriv, ih]; congr 1; omega
+
 /-- the clock `t + X` -/
 noncomputable def clock (t : K) : K⟦X⟧ := C t + X
 
